@@ -282,7 +282,7 @@ def trace(h, r, work, timeout, mem_gb=8, tag=''):
                                     pass
                             if 'data' in v:
                                 vals[lhs] = v['data']
-                                order.append((lhs, v['data'], st.get('sourceLocation', {}).get('function', '')))
+                                order.append((lhs, v['data'], st.get('sourceLocation', {}).get('function', ''), st.get('assignmentType', '')))
     except Exception as e:
         return {}, out[:20000]
     return {'last': vals, 'order': order, 'uint': ints}, out
